@@ -165,6 +165,10 @@ func c01Sinks() []c01Sink {
 		{name: "pre-attr-bound", attr: "title", tpl: func(a, b string) string { return `<pre><code data-m="1" :title="v" title2="{{ v }}">t</code></pre><p>after</p>` }},
 		{name: "textarea-v-text", tpl: func(a, b string) string { return `<textarea data-m="1" v-text="v">old</textarea><p>after</p>` }},
 		{name: "rawtext-include-prop", files: map[string]string{"raw.vuego": `<xmp data-m="1">[{{ u }}]</xmp><p>after</p>`}, tpl: func(a, b string) string { return `<template include="raw.vuego" :u="v"></template>` }},
+		// <template v-keep>: the tag itself is written to the output, with the attributes it was given
+		{name: "keep-include-bound-prop-attr", files: comp, attr: "u", probe: "3", tpl: func(a, b string) string { return `<template include="comp.vuego" v-keep data-m="3" :u="v"></template><p>after</p>` }},
+		{name: "keep-include-interp-prop-attr", files: comp, attr: "u", probe: "3", tpl: func(a, b string) string { return `<template include="comp.vuego" v-keep data-m="3" u="{{ v }}"></template><p>after</p>` }},
+		{name: "keep-include-bound-prop", files: comp, tpl: func(a, b string) string { return `<template include="comp.vuego" v-keep :u="v"></template><p>after</p>` }},
 		{name: "chain-branch-v-text", tpl: func(a, b string) string { return `<p v-if="no">n</p><p data-m="1" v-else v-text="v">old</p>` }},
 	}
 }
@@ -432,6 +436,10 @@ func runC01(r *Run) {
 				switch sk.name {
 				case "fn-arg-attr", "fn-arg-v-text", "attr-bound-mustache", "attr-bound-mustache-mixed":
 					want = v
+				case "keep-include-bound-prop-attr", "keep-include-interp-prop-attr":
+					want = v
+				case "keep-include-bound-prop":
+					want = "[" + v + "]"
 				case "v-text", "attr-bound", "for-child-attr", "include-bound-prop-attr", "chain-branch-v-text", "slot-twice-include-prop-attr", "pre-v-text", "pre-v-text-loop", "pre-attr-bound", "textarea-v-text":
 					want = v
 				case "attr-bound-class-merge":
